@@ -1,7 +1,7 @@
 (* C16 - generators: the index decoders used for skip sampling are bijections, the sampled
    indices are distinct and in range. *)
 From Coq Require Import List Arith Lia.
-From XV Require Import Base.Label Base.LSet Model.Decoders Proofs.Combs Proofs.DecoderProofs Proofs.SkipAll.
+From XV Require Import Base.Label Base.LSet Model.Decoders Proofs.Combs Proofs.DecoderProofs Proofs.SkipAll Proofs.CompleteProofs.
 Import ListNotations.
 
 (* _index_to_edge_comb(index, n, m) is the index-th m-combination of range(n) in lexicographic
@@ -72,3 +72,16 @@ Print Assumptions C16_nonvacuous.
 Theorem C16_probability_one_visits_all : forall count, visited (repeat 1 (S count)) count = seq 0 count.
 Proof. exact visited_all. Qed.
 Print Assumptions C16_probability_one_visits_all.
+
+(* complete_hypergraph: for the sizes the generator uses (order + 1, or 2 / 1 .. max_order + 1) the edge list
+   contains each node set of an admissible size exactly once: no repetition as lists or as sets, every edge is
+   a duplicate-free set of existing nodes of an admissible size, and every such set occurs *)
+Theorem C16_complete_hypergraph : forall n order mo incl,
+  let E := complete_edges n (complete_sizes order mo incl) in
+  NoDup E /\
+  (forall c d, In c E -> In d E -> (forall x, In x c <-> In x d) -> c = d) /\
+  (forall c, In c E -> NoDup c /\ (forall x, In x c -> x < n) /\ In (length c) (complete_sizes order mo incl)) /\
+  (forall f, NoDup f -> (forall x, In x f -> x < n) -> In (length f) (complete_sizes order mo incl) ->
+             exists c, In c E /\ (forall x, In x c <-> In x f)).
+Proof. intros n order mo incl. exact (complete_edges_spec n _ (complete_sizes_NoDup order mo incl)). Qed.
+Print Assumptions C16_complete_hypergraph.
